@@ -6,7 +6,7 @@ CLAIM = {
  'text': "Every message/action/stats-body/queue/match class of libopenflow_01 is packed with all integer fields symbolic over their full wire width; z3 "
          "proves on every path that the bytes equal an independent table-driven OpenFlow 1.0 layout encoder (offsets, widths, zero padding, length field), "
          "that unpack consumes exactly len bytes and yields an equal object, and that re-packing is byte-identical. Bounded by the stated list/payload sizes."
-         " Also: every decoded object is decoded again in the middle of a larger buffer (buffer-relative offsets), and an nx_match changed in place between two encodings of its message (O4_nx_reuse).",
+         " Also: every decoded object is decoded again in the middle of a larger buffer (buffer-relative offsets), and an nx_match changed in place between two encodings of its message (O4_nx_reuse). O5_stats_reuse: a statistics request / reply re-encoded after its body was assigned, changed in place, grown or given as a tuple equals a freshly built message.",
  'note': "Trusted: CPython, z3, symx proxies/struct model (selftest), the layout tables in props/C01.py transcribed from openflow.h 1.0.0. "
          "String fields and list lengths are concrete per case; integer/address fields and payload bytes are fully symbolic.",
 }
